@@ -1,4 +1,116 @@
-(* C05 — decision trees.  Property theorems only (placeholder while the proofs are being built). *)
-From Coq Require Import List Arith Bool.
-From SC Require Import C05.Model.
+(* C05 — decision trees.  Property theorems only: each is closed by assembling lemmas of
+   C05/Proofs*.v; its assumptions are printed by the check.  Statements are about the executable
+   model SC.C05.Model (generic in `Ops T`; `ROps` = exact real arithmetic, `FOps` = binary64), which
+   the correspondence check ties to src/tree/decision_tree_{regressor,classifier}.rs and
+   src/algorithm/sort/quick_sort.rs.
+
+   Vocabulary (defined in C05/ProofsGrow.v):
+   - `route O nodes row k`     : node k lies on the path that `row` takes from the root when every
+                                 internal node sends it to true_child iff row[split_feature] <= split_value;
+   - `reach a0 nodes k d`      : node k is d child-links below the root;
+   - `tree_consistent O a0 x msl P samples nodes G D` : G k is the vector of per-row sample counts
+     handed to node k (G 0 = samples; the children of an internal node get the threshold partition
+     of its vector), D k the number of splits above k, every non-root node holds >= msl counted rows
+     and P (G k) (output of node k) holds;
+   - `grow_tree` is the common part of both `fit_weak_learner`s (root, breadth-first growth) for an
+     arbitrary split search `find`; the theorems about it therefore hold for both trees, for every
+     bootstrap weight vector `samples` and every choice of tried features (random forest, C06). *)
+From Coq Require Import List Arith Bool Reals Lra Floats.
+From SC Require Import Base.Num C05.Model C05.ProofsGrow C05.ProofsReg.
 Import ListNotations.
+Local Open Scope nat_scope.
+
+(* predict_for_row returns the output of the leaf reached by single-feature threshold tests
+   (any number type, any well-formed node array — in particular the implementation's own arrays,
+   on which the correspondence check evaluates `wf_treeb`). *)
+Theorem C05_predict_routes : forall T A (O : Ops T) (nodes : list (node T A)) (row : list T),
+  wf_treeb nodes = true ->
+  exists k nd, route O nodes row k /\ nth_error nodes k = Some nd /\ leafb nd = true /\
+               predict_for_row O nodes row = Some (output nd).
+Proof. exact @predict_routes. Qed.
+
+(* every grown tree satisfies that well-formedness hypothesis *)
+Theorem C05_fitted_tree_wf : forall T A (O : Ops T) (a0 : A) x msl find root_out samples md nodes d,
+  grow_tree O a0 x msl find root_out samples md = Some (nodes, d) -> wf_treeb nodes = true.
+Proof.
+  intros T A O a0 x msl find r s md nodes d H.
+  destruct (grow_tree_structure O a0 x msl find r s md nodes d H) as (G & D & C & _).
+  exact (consistent_wf O a0 x msl _ s nodes G D C).
+Qed.
+
+(* node_samples_invariant: the sample vector handed to node k is, row by row, the row's count if
+   the training row is routed to k and 0 otherwise *)
+Theorem C05_node_samples_invariant : forall T A (O : Ops T) (a0 : A) x msl find root_out samples md nodes d,
+  grow_tree O a0 x msl find root_out samples md = Some (nodes, d) ->
+  exists G D, tree_consistent O a0 x msl (fun _ _ => True) samples nodes G D /\
+    forall i k, i < length x -> k < length nodes ->
+      (route O nodes (nth i x []) k -> nth i (G k) 0 = nth i samples 0) /\
+      (~ route O nodes (nth i x []) k -> nth i (G k) 0 = 0).
+Proof.
+  intros T A O a0 x msl find r s md nodes d H.
+  destruct (grow_tree_structure O a0 x msl find r s md nodes d H) as (G & D & C & _).
+  exists G, D. split; [exact C|]. intros i k Hi Hk. exact (samples_routed O a0 x msl _ s nodes G D i k C Hi Hk).
+Qed.
+
+(* leaf_size: every node other than the root (in particular every leaf other than an unsplit root)
+   holds at least min_samples_leaf counted training rows *)
+Theorem C05_leaf_size : forall T A (O : Ops T) (a0 : A) x msl find root_out samples md nodes d,
+  grow_tree O a0 x msl find root_out samples md = Some (nodes, d) ->
+  exists G D, tree_consistent O a0 x msl (fun _ _ => True) samples nodes G D /\
+    forall k, 0 < k < length nodes -> msl <= sum_nat (G k).
+Proof.
+  intros T A O a0 x msl find r s md nodes d H.
+  destruct (grow_tree_structure O a0 x msl find r s md nodes d H) as (G & D & C & _).
+  exists G, D. split; [exact C|]. exact (tc_size O a0 x msl _ s nodes G D C).
+Qed.
+
+(* depth_bound: no node is more than max_depth splits below the root *)
+Theorem C05_depth_bound : forall T A (O : Ops T) (a0 : A) x msl find root_out samples md nodes d k dk,
+  grow_tree O a0 x msl find root_out samples (Some md) = Some (nodes, d) ->
+  reach a0 nodes k dk -> dk <= md.
+Proof.
+  intros T A O a0 x msl find r s md nodes d k dk H R.
+  destruct (grow_tree_structure O a0 x msl find r s (Some md) nodes d H) as (G & D & C & HD).
+  destruct (reach_depth O a0 x msl _ s nodes G D k dk C R) as [Hk <-]. exact (HD k Hk).
+Qed.
+
+(* leaf_value_regression (exact arithmetic): in a fitted regression tree — for every weight vector,
+   every choice of tried features and all limits — the output of EVERY node k is the weighted mean
+   target of the rows counted by G k, i.e. (by C05_node_samples_invariant, same G) of exactly the
+   training rows routed to k.  Hypothesis on `order`: each tried feature's order is a sorting
+   permutation of the rows (C05_argsort_* discharge it for the computed orders). *)
+Theorem C05_leaf_value_regression : forall x y samples vars order md msl mss nodes d,
+  length y = length x -> length samples = length x ->
+  (forall id j, In j (vars id) -> sorted_order x j (nth j order [])) ->
+  fit_regressor_with_order ROps x y samples vars order md msl mss = Some (nodes, d) ->
+  exists G D, tree_consistent ROps 0%R x msl (reg_out_ok x y) samples nodes G D /\
+    (forall i k, i < length x -> k < length nodes ->
+      (route ROps nodes (nth i x []) k -> nth i (G k) 0 = nth i samples 0) /\
+      (~ route ROps nodes (nth i x []) k -> nth i (G k) 0 = 0)) /\
+    forall k, k < length nodes -> 0 < sum_nat (G k) ->
+      (output (nth k nodes (dnode 0%R)) * IZN (sum_nat (G k)) =
+       rsum (fun i => IZN (nth i (G k) 0%nat) * nth i y 0) (seq 0%nat (length x)))%R.
+Proof.
+  intros x y samples vars order md msl mss nodes d Hy Hs Ho H.
+  destruct (fit_regressor_consistent x y samples vars order md msl mss nodes d Hy Hs Ho H) as (G & D & C & _).
+  exists G, D. split; [exact C|]. split.
+  - intros i k Hi Hk. exact (samples_routed ROps 0%R x msl _ samples nodes G D i k C Hi Hk).
+  - intros k Hk Hpos. destruct (tc_out ROps 0%R x msl _ samples nodes G D C k Hk) as [Hl Hm].
+    exact (Hm Hl Hpos).
+Qed.
+
+(* ---- the hypotheses are satisfiable (binary64 instance, evaluated by the kernel) ---- *)
+Example C05_regressor_instance :
+  exists nodes d,
+    fit_regressor FOps [[1;5];[2;4];[3;9];[4;1];[5;7];[6;2]]%float [1;1.5;3;3.5;10;11]%float (Some 3) 1 2
+      = Some (nodes, d) /\ length nodes = 5 /\ wf_treeb nodes = true.
+Proof. eexists. eexists. split; [vm_compute; reflexivity|]. split; vm_compute; reflexivity. Qed.
+
+Example C05_sorted_order_instance : sorted_order [[3];[1];[2]]%R 0 [1; 2; 0].
+Proof.
+  split.
+  - cbn. apply Permutation.perm_trans with [1; 0; 2].
+    + apply Permutation.perm_skip. apply Permutation.perm_swap.
+    + apply Permutation.perm_swap.
+  - unfold X, getx. repeat constructor; cbn; lra.
+Qed.
